@@ -88,6 +88,32 @@ def attribute_cases():
     return out
 
 
+def limit_declaration_cases():
+    """A function (and a block of the script) that already holds m locals, m around the 256-locals limit, followed by every construct that
+    declares locals of its own (visible or hidden): each must compile or be rejected with located messages, never crash the compiler."""
+    constructs = [
+        ("var", "var x = 0;"), ("var2", "var x = 0; var y = 1;"), ("for", "for x in [1, 2] { s = s + x; }"), ("for-body", "for x in [1] { var y = x; var w = y; }"),
+        ("for-nested", "for x in [1] { for y in [2] { s = x + y; } }"), ("catch", "try { throw 1; } catch e { s = e; }"),
+        ("catch-body", "try { throw 1; } catch e { var y = e; var w = y; }"), ("finally", "try { s = 1; } finally { var y = 2; }"),
+        ("fn", "fn g() { return 1; }"), ("fn-capture", "fn g() { return s; }"), ("lambda", "var g = |p, q| p + q + s;"),
+        ("class", "class C { fn m(self) { return 1; } }"), ("class-derived", "#[derive(Base), constructor(new)] class C { fn m(self) { return super.hi(); } }"),
+        ("import", "import \"modules/foo\";"), ("import-as", "import \"modules/foo\" as mm;"), ("block", "{ var y = 1; { var w = 2; } }"),
+        ("while-body", "while s < 1 { var y = 1; s = s + y; }"), ("if-body", "if s == 0 { var y = 1; } else { var w = 2; }"),
+    ]
+    out = []
+    for m in (252, 253, 254, 255, 256):
+        decls = "\n".join("var l%d = %d;" % (i, i) for i in range(m))
+        for cname, c in constructs:
+            out.append(("limitdecl:fn:%s:%d" % (cname, m), "class Base { fn hi(self) { return 1; } }\nfn f() {\nvar s = 0;\n%s\n%s\nreturn s;\n}\nf();\n" % (decls, c)))
+            out.append(("limitdecl:block:%s:%d" % (cname, m), "class Base { fn hi(self) { return 1; } }\n{\nvar s = 0;\n%s\n%s\n}\n" % (decls, c)))
+    # parameters count as locals too
+    for m in (253, 254, 255, 256):
+        params = ", ".join("p%d" % i for i in range(m))
+        for cname, c in constructs[:8]:
+            out.append(("limitdecl:params:%s:%d" % (cname, m), "fn f(%s) {\nvar s = 0;\n%s\nreturn s;\n}\n" % (params, c)))
+    return out
+
+
 def nesting(depth, kind):
     if kind == "paren":
         return "var x = " + "(" * depth + "1" + ")" * depth + ";\n"
@@ -152,6 +178,11 @@ def correspondence(ctx, model_ok=True):
             cases.append(("crlf-cut:" + name, src.replace("\n", "\r\n")[:max(1, len(src) * 2 // 3)]))
             cases.append(("cr-mixed:" + name, src.replace("\n", "\r\n", 3).replace(";", ";\r", 2)))
     cases += attribute_cases()
+    # programs sitting on the encoding limits: every construct that declares locals at 252..256 locals, and the limit programs of C04
+    # (jump distances, operand counts, constants, captured variables): the compiler must answer, with a function or located messages
+    cases += limit_declaration_cases()
+    from props import c04 as _c04
+    cases += [("limit:" + n, src) for n, src, _ in _c04.limit_programs() if ctx.thorough or ":constants:" not in n and ":constvalues:" not in n]
     lines = [vlib.case_line("c%d" % i, ["C:" + vlib.hx(src)], bytecode=1) for i, (_, src) in enumerate(cases)]
     res = vlib.run_real(ctx.runner, lines, timeout_per_batch=90, batch=400)
     ok_count = err_count = 0
@@ -196,8 +227,8 @@ def correspondence(ctx, model_ok=True):
             for a, (name, src) in zip(ans, verify_owner):
                 if not a.startswith("ok"):
                     cls = a.split()[1] if len(a.split()) > 1 else a
-                    # shapes of the C04 ledger (break out of try, finally heights, nested return) are C04's findings, not C03's
-                    if cls in ("HandlerMismatch", "HeightMismatch"):
+                    # shapes of the C04 ledger (break out of try, finally heights, nested return, raising inside a finally that runs for a return) are C04's findings, not C03's
+                    if cls in ("HandlerMismatch", "HeightMismatch", "PendingReturnLeak"):
                         continue
                     failures.append({"what": "an ACCEPTED program compiles to code the verifier rejects: " + a[:160], "name": name, "program": src[:3000],
                                      "signature": "accepted-but-unverifiable " + cls, "failing_input": True})
